@@ -15,7 +15,7 @@ EXPLANATION = ('doc/generate/mjcf_schema.py is loaded from /repo; its real _Pars
                'carrying a line number inside the text (no other exception); every accepted input, re-parsed concretely by parse_string, satisfies an independently written statement of the '
                'documented rules (no dangling/cyclic use, no duplicate expanded attribute, children/aliases/enum targets exist, constraints name own attributes, requires is binary, variant groups '
                'have no use/required). Grammar-guided prefixes put the symbolic tokens inside element/group/enum bodies so the deep rules are reached.')
-BOUNDS = {'quick': {'free token lists': '<= 3 tokens', 'guided': 'prefix + <= 3 symbolic tokens (13 scenarios)'}, 'thorough': {'free token lists': '<= 4 tokens', 'guided': 'prefix + <= 4 symbolic tokens'}}
+BOUNDS = {'quick': {'free token lists': '<= 3 tokens', 'guided': 'prefix + <= 2 symbolic tokens + closing text, and the same prefixes truncated (input ends after the symbolic tokens): 60 scenarios'}, 'thorough': {'free token lists': '<= 4 tokens', 'guided': 'prefix + <= 4 symbolic tokens'}}
 OUTSIDE = 'inputs longer than the bound (e.g. use chains deeper than Python\'s recursion limit make _check_group_cycle raise RecursionError - noted, far outside any reachable bound); the regex lexer on arbitrary characters (only rendered token texts are lexed); documentation comments.'
 ASSUMPTIONS = ['token values range over the stated vocabulary (the code never inspects characters of identifiers, only compares whole tokens)', 'one representative concrete input per explored path is re-parsed for the rule predicate']
 BUDGET = {'quick': 500, 'thorough': 3000}
@@ -183,7 +183,12 @@ SCENARIOS = [  # (tag, prefix, suffix)
     ('child-dup', 'element b { } element a { child b ? child', '}'), ('attr-dup', 'element a { b : int b :', '}'), ('use-dup-attr', 'group g { b : int } element a { b : int use', '}'),
     ('alias', 'element b { } element a ( alias =', ') { }'), ('enum-target', 'enum b { a = a } element a { g : enum <', '}'), ('variant-required', 'group g variant { b : int (', ') }'),
     ('variant-use', 'group b { } group g variant { use', '}'), ('requires-extra', 'element a { b : int g : int requires b g', '}'), ('group-constraint', 'group g { b : int exclusive b', '}'),
-    ('ref-namespace', 'element a { b : ref <', '}'), ('default-arity', 'element a { b : double [ 2 ] = {', '}')]
+    ('ref-namespace', 'element a { b : ref <', '}'), ('default-arity', 'element a { b : double [ 2 ] = {', '}'),
+    # duplicate expanded attributes by every route: inside one group, through a nested use, through two uses
+    ('dup-in-group', 'group g { b : int b : int } element a { use', '}'), ('dup-nested-use', 'group g { b : int } group R { b : int use g } element a { use', '}'),
+    ('dup-two-uses', 'group g { b : int } group R { b : int } element a { use g use', '}'), ('dup-group-decl', 'group g { b : int b :', '}')]
+# the same prefixes cut off (no closing text): the input ends wherever the symbolic tokens end
+TRUNCATED = [(tag + '-eof', pre, '') for tag, pre, suf in SCENARIOS if suf]
 
 
 def unit_free(tier, n, part, nparts):
@@ -213,5 +218,5 @@ def units(tier):
     else:
         u += [('free_n3_p%d' % p, 'unit_free', {'n': 3, 'part': p, 'nparts': 4}) for p in range(4)] + [('free_n4_p%d' % p, 'unit_free', {'n': 4, 'part': p, 'nparts': 16}) for p in range(16)]
         ns = 3
-    for tag, pre, suf in SCENARIOS: u.append(('guided_%s' % tag, 'unit_guided', {'tag': tag, 'prefix': pre, 'suffix': suf, 'nsym': ns}))
+    for tag, pre, suf in SCENARIOS + TRUNCATED: u.append(('guided_%s' % tag, 'unit_guided', {'tag': tag, 'prefix': pre, 'suffix': suf, 'nsym': ns}))
     return u
